@@ -9,6 +9,7 @@ import CdnsVerif.Model.ReadBlock
 import CdnsVerif.Proofs.BuilderConforms
 import CdnsVerif.Proofs.BuilderReach
 import CdnsVerif.Proofs.ResolveAec
+import CdnsVerif.Props.C17
 
 namespace CdnsVerif.Model.ReadBlock
 open CdnsVerif.Spec.Cbor CdnsVerif.Generated CdnsVerif.Model.Schema CdnsVerif.Model.Structs CdnsVerif.Model.Builder CdnsVerif.Model.Timestamp
@@ -260,23 +261,23 @@ theorem allOk_map_id {α : Type} (f : Val → Except RErr α) (t : α → Val) (
   have := allOk_map (fun x => f (t x)) id l (by simpa using h)
   simpa [List.map_map, Function.comp_def] using this
 
-/-- entering address-event counts with distinct keys one by one reproduces the list -/
-theorem foldl_putAec (l acc : List (AEC × Nat)) (hnd : ((acc ++ l).map (·.1)).Nodup) : l.foldl putAec acc = acc ++ l := by
+/-- entering pairwise different address-event entries one by one reproduces the list -/
+theorem foldl_putAec (l acc : List (AEC × Nat)) (hnd : (acc ++ l).Nodup) : l.foldl putAec acc = acc ++ l := by
   induction l generalizing acc with
   | nil => simp
   | cons e l ih =>
-    have hnot : acc.any (fun x => x.1 == e.1) = false := by
+    have hnot : acc.any (· == e) = false := by
       rw [Bool.eq_false_iff]
       intro hany
       obtain ⟨x, hx, hxe⟩ := List.any_eq_true.1 hany
-      have hxe' : x.1 = e.1 := by simpa using hxe
-      rw [List.map_append, List.nodup_append] at hnd
-      exact hnd.2.2 x.1 (List.mem_map_of_mem (f := fun y : AEC × Nat => y.1) hx) e.1 (by simp) hxe'
+      have hxe' : x = e := by simpa using hxe
+      rw [List.nodup_append] at hnd
+      exact hnd.2.2 x hx e (by simp) hxe'
     have : putAec acc e = acc ++ [e] := by simp only [putAec, hnot, Bool.false_eq_true, if_false]
     rw [List.foldl_cons, this, ih (acc ++ [e]) (by simpa using hnd)]
     simp
 
-theorem read_aecs (l : List (AEC × Nat)) (hnd : (l.map (·.1)).Nodup) : ((l.map AEC.toVal).map aecOf).foldl putAec [] = l := by
+theorem read_aecs (l : List (AEC × Nat)) (hnd : l.Nodup) : ((l.map AEC.toVal).map aecOf).foldl putAec [] = l := by
   have : (l.map AEC.toVal).map aecOf = l := by
     rw [List.map_map]
     conv => rhs; rw [← List.map_id l]
@@ -321,7 +322,7 @@ def readBackOf (b : Blk) : Blk := { b with stats := b.stats.map norm6 }
 /-- **The block reader inverts the block writer.** -/
 theorem ofVal_toVal (rates : List Nat) (b : Blk) (pi : Option Nat) (tps : Nat) (hrate : rateFor rates pi = .ok tps)
     (hq : ∀ q ∈ b.qrs, TimeBack b.earliest tps q.ts) (hm : ∀ m ∈ b.mms, TimeBack b.earliest tps m.ts)
-    (ha : (b.aecs.map (·.1)).Nodup) :
+    (ha : b.aecs.Nodup) :
     ofVal rates (toVal b pi tps) = .ok { blk := readBackOf b, pi := pi, tps := tps } := by
   have e' : toVal b pi tps = .record (slots (blkSlots b pi tps)) := by
     simp only [toVal, blkSlots, preVal, nonEmpty_eq, ite_slot, slots_sV, slots_nil', optV_some, List.append_nil, List.append_assoc,
@@ -535,6 +536,150 @@ theorem resolve_readBackOf (b : Blk) :
     (readBackOf b).mms.map (resolveM (readBackOf b)) = b.mms.map (resolveM b) := ⟨rfl, rfl⟩
 
 theorem closed_readBackOf (b : Blk) (hc : Closed b) : Closed (readBackOf b) := hc
+
+
+/-! ### a block that was READ, written again (cdns-merge: `writer.write_block(block)` on a `CdnsBlockRead`) and read again -/
+
+theorem allOk_mem {α : Type} (l : List (Except RErr α)) (xs : List α) (h : allOk l = .ok xs) : ∀ x ∈ xs, .ok x ∈ l := by
+  induction l generalizing xs with
+  | nil => simp only [allOk, Except.ok.injEq] at h; subst h; intro x hx; cases hx
+  | cons e l ih =>
+    cases e with
+    | error e => simp [allOk] at h
+    | ok y =>
+      simp only [allOk] at h
+      cases hr : allOk l with
+      | error e => rw [hr] at h; cases h
+      | ok ys =>
+        rw [hr] at h
+        simp only [Except.ok.injEq] at h
+        subst h
+        intro x hx
+        rcases List.mem_cons.1 hx with rfl | hx'
+        · exact List.mem_cons_self
+        · exact List.mem_cons_of_mem _ (ih ys hr x hx')
+
+/-- a time the block reader produced comes from `add_time_offset` on the block's earliest time -/
+def FromAdd (earliest : Ts) (tps : Nat) (ts : Option Ts) : Prop :=
+  ∀ t, ts = some t → ∃ off, addTimeOffset earliest off tps = .ok t
+
+theorem timeOf_fromAdd (earliest : Ts) (tps : Nat) (o : Option Nat) (ts : Option Ts) (h : timeOf earliest tps o = .ok ts) :
+    FromAdd earliest tps ts := by
+  intro t ht
+  subst ht
+  cases o with
+  | none => simp [timeOf] at h
+  | some n =>
+    simp only [timeOf] at h
+    cases ha : addTimeOffset earliest (toI64 n) tps with
+    | error e => rw [ha] at h; cases h
+    | ok t' =>
+      rw [ha] at h
+      simp only [Except.ok.injEq, Option.some.injEq] at h
+      exact ⟨toI64 n, h ▸ ha⟩
+
+theorem qrOf_fromAdd (earliest : Ts) (tps : Nat) (v : Val) (q : QRec) (h : qrOf earliest tps v = .ok q) : FromAdd earliest tps q.ts := by
+  unfold qrOf at h
+  cases ht : timeOf earliest tps (fNat (recOf v) QueryResponseMapIndex.time_offset) with
+  | error e => simp only [ht] at h; cases h
+  | ok ts =>
+    simp only [ht, Except.ok.injEq] at h
+    have : q.ts = ts := by rw [← h]
+    rw [this]
+    exact timeOf_fromAdd _ _ _ _ ht
+
+theorem mmOf_fromAdd (earliest : Ts) (tps : Nat) (v : Val) (m : MMRec) (h : mmOf earliest tps v = .ok m) : FromAdd earliest tps m.ts := by
+  unfold mmOf at h
+  cases ht : timeOf earliest tps (fNat (recOf v) MalformedMessageMapIndex.time_offset) with
+  | error e => simp only [ht] at h; cases h
+  | ok ts =>
+    simp only [ht, Except.ok.injEq] at h
+    have : m.ts = ts := by rw [← h]
+    rw [this]
+    exact timeOf_fromAdd _ _ _ _ ht
+
+theorem nodup_of_nodup_map {α β : Type} (f : α → β) (l : List α) (h : (l.map f).Nodup) : l.Nodup := by
+  induction l with
+  | nil => exact List.nodup_nil
+  | cons a l ih =>
+    rw [List.map_cons, List.nodup_cons] at h
+    rw [List.nodup_cons]
+    exact ⟨fun ha => h.1 (List.mem_map_of_mem (f := f) ha), ih h.2⟩
+
+theorem putAec_nodup (acc : List (AEC × Nat)) (e : AEC × Nat) (h : acc.Nodup) : (putAec acc e).Nodup := by
+  unfold putAec
+  by_cases hany : acc.any (· == e) = true
+  · simp only [hany, if_true]; exact h
+  · simp only [hany, Bool.false_eq_true, if_false]
+    rw [List.nodup_append]
+    refine ⟨h, by simp, ?_⟩
+    intro a ha b hb
+    simp only [List.mem_singleton] at hb
+    subst hb
+    intro hab
+    subst hab
+    exact hany (List.any_eq_true.2 ⟨a, ha, by simp⟩)
+
+theorem foldl_putAec_nodup (l acc : List (AEC × Nat)) (h : acc.Nodup) : (l.foldl putAec acc).Nodup := by
+  induction l generalizing acc with
+  | nil => exact h
+  | cons e l ih => exact ih _ (putAec_nodup acc e h)
+
+/-- what a successful `ofVal` tells about the block object: every record time comes from `add_time_offset` on the block's
+    earliest time under the block's tick rate, the rate is that of the parameter set named, address-event entries are pairwise different -/
+theorem ofVal_facts (rates : List Nat) (v : Val) (rb : RdBlk) (h : ofVal rates v = .ok rb) :
+    (∀ q ∈ rb.blk.qrs, FromAdd rb.blk.earliest rb.tps q.ts) ∧ (∀ m ∈ rb.blk.mms, FromAdd rb.blk.earliest rb.tps m.ts) ∧
+    rb.blk.aecs.Nodup ∧ rateFor rates rb.pi = .ok rb.tps := by
+  unfold ofVal at h
+  cases hpre : fRec (recOf v) BlockMapIndex.block_preamble with
+  | none => simp only [hpre] at h; cases h
+  | some pre =>
+    simp only [hpre] at h
+    cases he : earliestOf pre with
+    | error e => simp only [he] at h; cases h
+    | ok earliest =>
+      simp only [he] at h
+      cases hr : rateFor rates (fNat pre BlockPreambleMapIndex.block_parameters_index) with
+      | error e => simp only [hr] at h; cases h
+      | ok tps =>
+        simp only [hr] at h
+        cases hq : allOk ((fList (recOf v) BlockMapIndex.query_responses).map (qrOf earliest tps)) with
+        | error e => simp only [hq] at h; cases h
+        | ok qrs =>
+          simp only [hq] at h
+          cases hm : allOk ((fList (recOf v) BlockMapIndex.malformed_messages).map (mmOf earliest tps)) with
+          | error e => simp only [hm] at h; cases h
+          | ok mms =>
+            simp only [hm, Except.ok.injEq] at h
+            subst h
+            refine ⟨?_, ?_, ?_, hr⟩
+            · intro q hqm
+              obtain ⟨w, _, hw⟩ := List.mem_map.1 (allOk_mem _ _ hq q hqm)
+              exact qrOf_fromAdd _ _ w q hw
+            · intro m hmm
+              obtain ⟨w, _, hw⟩ := List.mem_map.1 (allOk_mem _ _ hm m hmm)
+              exact mmOf_fromAdd _ _ w m hw
+            · exact foldl_putAec_nodup _ [] List.nodup_nil
+
+theorem timeBack_of_fromAdd (e : Ts) (r : Nat) (hr : 1 ≤ r) (he : Props.C17.InRange e r) (ts : Option Ts) (h : FromAdd e r ts) :
+    TimeBack e r ts := by
+  unfold TimeBack
+  cases ts with
+  | none => rfl
+  | some t =>
+    obtain ⟨off, hoff⟩ := h t rfl
+    obtain ⟨d, hd1, hd2⟩ := Props.C17.reoffset_recovers e off r hr he t hoff
+    simp only [Option.bind_some, offsetOf, hd1, timeOf, hd2]
+
+/-- **Write-after-read is the identity on what is read.**  A block object obtained by reading (any file, any writer), written
+    again under any parameter index whose set carries the block's tick rate, and read again, is the same block object – tables,
+    items with their times, address-event counts, statistics – with the new index; in particular its records are unchanged. -/
+theorem reread_of_read_block (rates rates' : List Nat) (v : Val) (rb : RdBlk) (hread : ofVal rates v = .ok rb) (pi' : Option Nat)
+    (hr : 1 ≤ rb.tps) (he : Props.C17.InRange rb.blk.earliest rb.tps) (hrate : rateFor rates' pi' = .ok rb.tps) :
+    ofVal rates' (toVal rb.blk pi' rb.tps) = .ok { blk := readBackOf rb.blk, pi := pi', tps := rb.tps } := by
+  obtain ⟨hq, hm, ha, _⟩ := ofVal_facts rates v rb hread
+  exact ofVal_toVal rates' rb.blk pi' rb.tps hrate
+    (fun q hqm => timeBack_of_fromAdd _ _ hr he _ (hq q hqm)) (fun m hmm => timeBack_of_fromAdd _ _ hr he _ (hm m hmm)) ha
 
 
 end CdnsVerif.Model.ReadBlock
